@@ -28,11 +28,14 @@ class Run:
         self.idents = {}
         self.recorder = recorder
         self.marks = []            # (tid, call count, recorder event index) at each context event (solo profiling)
+        self.measure = []          # call counts (thread 0) of calls into the string-width module
 
     def _tracer(self, tid):
         def tr(frame, event, arg):
             if event == "call" and frame.f_code.co_filename.startswith(SRC):
                 self.counts[tid] += 1
+                if tid == 0 and frame.f_code.co_filename.endswith("strwidth.py"):
+                    self.measure.append(self.counts[0])
                 to = self.preempts.get((tid, self.counts[tid]))
                 if to is not None and to != tid and not self.done[to]:
                     self.taken.append((tid, self.counts[tid], to))
@@ -99,7 +102,8 @@ def profile(doc_id):
     finally:
         rec.on_event = None
     same = res[0] == _W["solo"][doc_id]
-    return {"doc": doc_id, "calls": run.counts[0], "marks": sorted(set(marks)), "same_as_untraced": same}
+    return {"doc": doc_id, "calls": run.counts[0], "marks": sorted(set(marks)), "measure": sorted(set(run.measure)),
+            "same_as_untraced": same}
 
 
 def run_schedule(task):
